@@ -8,6 +8,27 @@ pub fn rirefbuf_of(b: &[u8]) -> Option<RiRefBuf> {
 	own(b.to_vec()).and_then(|o| RiRefBuf::new(o).ok())
 }
 
+/// The same buffers with spare capacity (as left by an earlier shrinking edit, `with_capacity`,
+/// `push_str`, `format!`): the splice primitives take a different route when no reallocation
+/// is needed.
+pub fn spare(b: &[u8]) -> Vec<u8> {
+	let mut v = Vec::with_capacity(b.len() + 64);
+	v.extend_from_slice(b);
+	v
+}
+
+pub fn rirefbuf_spare(b: &[u8]) -> Option<RiRefBuf> {
+	own(spare(b)).and_then(|o| RiRefBuf::new(o).ok())
+}
+
+pub fn ribuf_spare(b: &[u8]) -> Option<RiBuf> {
+	own(spare(b)).and_then(|o| RiBuf::new(o).ok())
+}
+
+pub fn pathbuf_spare(b: &[u8]) -> Option<PathBuf> {
+	own(spare(b)).and_then(|o| PathBuf::new(o).ok())
+}
+
 pub fn ribuf_of(b: &[u8]) -> Option<RiBuf> {
 	own(b.to_vec()).and_then(|o| RiBuf::new(o).ok())
 }
@@ -154,9 +175,71 @@ pub fn c09_embedded_case(ctx_text: &[u8], out: &mut Vec<Violation>) -> u64 {
 	1
 }
 
+/// Normalisation through a REUSED handle: normalize, edit, normalize again through the same
+/// `PathMut` must equal the same calls through fresh handles (the handle must not remember
+/// that the path "is normalised").
+pub fn c09_reused_handle_case(text: &[u8], out: &mut Vec<Violation>) -> u64 {
+	let mut n = 0;
+	let segs: [&[u8]; 5] = [b"..", b".", b"", b"a", b"a:b"];
+	for seg in segs {
+		for clear_first in [false, true] {
+			n += 1;
+			let input = json!({"fam": fam_name(), "path": bytes_json(text), "pushed": bytes_json(seg), "clear_first": clear_first});
+			let r = guard(|| {
+				let s = Segment::new(inp(seg).unwrap()).ok().unwrap();
+				// one handle
+				let mut b1 = pathbuf_of(text).expect("valid path");
+				{
+					let mut h = b1.as_path_mut();
+					h.normalize();
+					if clear_first {
+						h.clear();
+					}
+					h.push(s);
+					h.normalize();
+				}
+				// fresh handle per call
+				let mut b2 = pathbuf_of(text).expect("valid path");
+				b2.normalize();
+				if clear_first {
+					b2.clear();
+				}
+				b2.push(s);
+				b2.normalize();
+				(b1.as_bytes().to_vec(), b2.as_bytes().to_vec())
+			});
+			match r {
+				Guard::Ok((one, fresh)) => {
+					if one != fresh {
+						out.push(
+							Violation::new("C09", "reused-handle", "normalize-after-edit", input)
+								.obs(format!("one handle: {:?}", lossy(&one)))
+								.exp(format!("fresh handles: {:?}", lossy(&fresh))),
+						);
+					}
+				}
+				Guard::Panic(pm) => out.push(Violation::new("C09", "reused-handle", "panic", input).feat("panic_at", panic_site(&pm)).obs(format!("panic: {pm}")).exp("no panic")),
+			}
+		}
+	}
+	n
+}
+
 pub fn c09_replay(check: &str, input: &Value) -> Vec<Violation> {
 	let mut out = Vec::new();
 	match check {
+		"reused-handle" => {
+			if let Some(t) = json_bytes(&input["path"]) {
+				let mut all = Vec::new();
+				c09_reused_handle_case(&t, &mut all);
+				// keep the scenario named in the input
+				for v in all {
+					if v.input == *input {
+						out.push(v);
+					}
+				}
+			}
+		}
 		"embedded" => {
 			if let Some(t) = json_bytes(&input["text"]) {
 				c09_embedded_case(&t, &mut out);
